@@ -35,7 +35,7 @@ func cpuBudgetNs(n int) int64 {
 
 // memBudget is M(n): memory obtained from the OS may grow by at most this for one input.
 func memBudget(n int) int64 {
-	return 96<<20 + int64(n)*256
+	return 512<<20 + int64(n)*256
 }
 
 func runLoader(loader string, data []byte) (outcome string) {
